@@ -328,7 +328,7 @@ def r_merge_flat(ck: Checker) -> None:
             rets = [s for s in walk_body(c.node.body) if isinstance(s, ast.Return)]
             first = c.node.args.args[0].arg
             inits = [s for s in c.node.body if isinstance(s, ast.Assign) and norm(s.targets[0]) == accv and norm(s.value) == first]
-            ok = bool(inits) and any(r.value is not None and norm(r.value) == accv for r in rets)
+            ok = (bool(inits) or accv == first) and any(r.value is not None and norm(r.value) == accv for r in rets)
     if not ok:
         # functools.reduce with an addition operator over the operands, starting from the first one
         first = c.node.args.args[0].arg
